@@ -97,7 +97,8 @@ theorem not_pendingEff_compile (op : COp) : ¬ (Instr.check ∉ compile op ∧ e
   cases op with
   | close => simp [compile, effsOf] at h2
   | commit b v r ws => simp [compile] at h1
-  | _ => simp [compile, readCode, writeCode, iterCode] at h1
+  | batchOp b => simp [compile, batchCode, effsOf] at h2
+  | _ => simp [compile, readCode, writeCode, iterCode, flagCode] at h1
 
 theorem effsOf_cons_ne (i : Instr) (rest : List Instr) (hi : ∀ a, i ≠ .eff a) : effsOf (i :: rest) = effsOf rest := by
   cases i <;> simp_all [effsOf]
